@@ -171,6 +171,10 @@ structure Shared where
   cacheSet : Bool
   /-- ghost: number of insertions of a *new* key so far (see `Iter.tainted`) -/
   inserts : Nat
+  /-- program layer only: the key sets of the inner plugin-cache dicts (`_fixed_plugin_cache[h]`)
+  created so far, in creation order; a thread may keep using an old one after the attribute was
+  rebound.  The access layer replays every dict separately and leaves this field alone. -/
+  inner : List (List Key) := []
 deriving DecidableEq, Repr
 
 /-- one atomic access of the shared state (one Python source line of `context.py` does at most one
@@ -295,6 +299,23 @@ inductive Instr where
   | cacheLookup
   /-- `for k in list(registry.keys()): if k.startswith("_temp"): del registry[k]` -/
   | deleteAllTemp
+  -- finer-grained instructions, used when a program is read off a real run (tie `registry/program`)
+  /-- a bare `registry[_temp_k]` (get_components, is_stored, stored_dependencies): KeyError if absent -/
+  | lookupTemp (k : Nat)
+  /-- the same look-up inside `_make_progress_bar`'s `try … except KeyError`: never fails -/
+  | tryLookupTemp (k : Nat)
+  /-- `self._fixed_plugin_cache is None` -/
+  | cacheTest
+  /-- `h in self._fixed_plugin_cache` / `self._fixed_plugin_cache[h]`: TypeError if it is `None` -/
+  | cacheUse
+  /-- `self._fixed_plugin_cache = {h: dict()}`: a new, empty inner dict -/
+  | cacheInit
+  /-- `for target, plugin in cached_plugins.items()` on inner dict `d` -/
+  | innerIter (d : Nat)
+  /-- `self._fixed_plugin_cache[h][target] = plugin` on inner dict `d` -/
+  | innerSet (d : Nat) (key : Key)
+  /-- `plugins[target]` on inner dict `d`: KeyError if absent -/
+  | innerGet (d : Nat) (key : Key)
 deriving DecidableEq, Repr
 
 /-- where a thread is inside its current instruction -/
@@ -304,6 +325,8 @@ inductive Micro where
   | resolving (k : Nat)          -- membership test passed, subscript outstanding
   | cacheChecked                 -- `is None` test passed (it was a dict), subscript outstanding
   | deleting (todo : List Key)   -- snapshot taken, keys still to examine
+  | registering (reset : Bool)   -- `old = registry.get(name)` done; `reset`: a different class was there
+  | innerHashing (d : Nat)       -- iterating inner dict `d`
 deriving DecidableEq, Repr
 
 structure Thread where
@@ -324,27 +347,24 @@ structure Sys where
   threads : List Thread
 deriving DecidableEq, Repr
 
-/-- `Context.register(p)` for a class named `key`: `old = registry.get(key)`; a *different* class
-under that name invalidates the plugin cache (`_fixed_plugin_cache = None`); `registry[key] = p`.
-Taken as one atomic step in thread programs. -/
-def registerAct (s : Shared) (its : Iters) (key : Key) (cls : Nat) : Shared × Iters :=
-  let (s1, its1, r) := applyAct s its (.lookup key)
-  let (s2, its2) := match r with
-    | .cls (some old) =>
-      if old != cls then let (s', its', _) := applyAct s1 its1 (.cacheWrite false); (s', its')
-      else (s1, its1)
-    | _ => (s1, its1)
-  let (s3, its3, _) := applyAct s2 its2 (.setKey key cls)
-  (s3, its3)
-
 /-- one atomic step of thread `t` (no-op when it has finished or failed) -/
 def stepThread (s : Shared) (its : Iters) (t : Thread) : Shared × Iters × Thread :=
   if t.failed.isSome then (s, its, t) else
   match t.micro, t.prog with
   | _, [] => (s, its, t)
-  | .idle, .registerTemp k :: rest =>
-    let (s', its') := registerAct s its (.temp k) t.tid
-    (s', its', { t with prog := rest })
+  -- `Context.register(p)`, three source lines: `old = registry.get(name)`; a *different* class under
+  -- that name invalidates the plugin cache (`_fixed_plugin_cache = None`); `registry[name] = p`
+  | .idle, .registerTemp k :: _ =>
+    match applyAct s its (.lookup (.temp k)) with
+    | (s', its', .cls (some old)) => (s', its', { t with micro := .registering (old != t.tid) })
+    | (s', its', _) => (s', its', { t with micro := .registering false })
+  | .registering true, _ :: _ =>
+    let (s', its', _) := applyAct s its (.cacheWrite false)
+    (s', its', { t with micro := .registering false })
+  | .registering false, .registerTemp k :: rest =>
+    let (s', its', _) := applyAct s its (.setKey (.temp k) t.tid)
+    (s', its', { t with micro := .idle, prog := rest })
+  | .registering false, _ :: _ => (s, its, { t with failed := some .other })
   | .idle, .contextHash :: _ =>
     let (s', its', _) := applyAct s its (.iterBegin t.tid)
     (s', its', { t with micro := .hashing })
@@ -382,6 +402,37 @@ def stepThread (s : Shared) (its : Iters) (t : Thread) : Shared × Iters × Thre
     match applyAct s its (.delKey k) with
     | (s', its', .err e) => (s', its', { t with failed := some e })
     | (s', its', _) => (s', its', { t with micro := .deleting todo })
+  | .idle, .lookupTemp k :: rest =>
+    match applyAct s its (.getKey (.temp k)) with
+    | (s', its', .err e) => (s', its', { t with failed := some e })
+    | (s', its', _) => (s', its', { t with prog := rest })
+  | .idle, .tryLookupTemp _ :: rest => (s, its, { t with prog := rest })
+  | .idle, .cacheTest :: rest => (s, its, { t with prog := rest })
+  | .idle, .cacheUse :: rest =>
+    match applyAct s its .cacheRead with
+    | (s', its', .bool true) => (s', its', { t with prog := rest })
+    | (s', its', _) => (s', its', { t with failed := some .typeError })
+  | .idle, .cacheInit :: rest =>
+    ({ s with cacheSet := true, inner := s.inner ++ [[]] }, its, { t with prog := rest })
+  | .idle, .innerIter d :: _ =>
+    match s.inner[d]? with
+    | none => (s, its, { t with failed := some .other })
+    | some l => (s, itersSet its ⟨t.tid, l.length, 0, 0⟩, { t with micro := .innerHashing d })
+  | .innerHashing d, _ :: rest =>
+    match s.inner[d]?, itersGet its t.tid with
+    | some l, some i =>
+      if l.length ≠ i.size then (s, itersDrop its t.tid, { t with failed := some .runtimeError })
+      else if i.pos < l.length then (s, itersSet its { i with pos := i.pos + 1 }, t)
+      else (s, itersDrop its t.tid, { t with micro := .idle, prog := rest })
+    | _, _ => (s, its, { t with failed := some .other })
+  | .idle, .innerSet d key :: rest =>
+    match s.inner[d]? with
+    | none => (s, its, { t with failed := some .other })
+    | some l => ({ s with inner := s.inner.set d (if key ∈ l then l else l ++ [key]) }, its, { t with prog := rest })
+  | .idle, .innerGet d key :: rest =>
+    match s.inner[d]? with
+    | none => (s, its, { t with failed := some .other })
+    | some l => if key ∈ l then (s, its, { t with prog := rest }) else (s, its, { t with failed := some .keyError })
 
 /-- thread `i` makes one step -/
 def Sys.step (sys : Sys) (i : Nat) : Sys :=
@@ -415,9 +466,16 @@ def Sys.stepBlock (sys : Sys) (i : Nat) : Sys :=
 
 def Sys.runBlocks (sys : Sys) (schedule : List Nat) : Sys := schedule.foldl Sys.stepBlock sys
 
-/-- the program of one worker as the property cares about it -/
+/-- The program of one worker (`get_iter` with several same-kind targets, cold plugin cache) in the
+order in which the real code touches the shared state: `_get_plugins` hashes the context, the temp
+plugin is registered, `register` iterates the registry, `get_components` subscripts the temp name,
+`__get_plugin` consults the plugin cache and — the temp plugin not being cached — resolves the name
+in the registry, the clean-up loop deletes every `_temp*` key, `key_for` hashes again.  With a warm
+cache the `resolve` step is absent.  The check compares this order with the events of real workers
+(`registry/program`, program-shape). -/
 def workerProg (k : Nat) : List Instr :=
-  [.contextHash, .registerTemp k, .contextHash, .cacheLookup, .resolve k, .deleteAllTemp, .contextHash]
+  [.contextHash, .registerTemp k, .contextHash, .lookupTemp k, .cacheLookup, .resolve k, .deleteAllTemp,
+   .contextHash]
 
 /-- the block that the lock-style fix makes atomic -/
 def lockedProg (k : Nat) : List Instr := [.registerTemp k, .resolve k, .deleteAllTemp, .contextHash]
@@ -425,9 +483,28 @@ def lockedProg (k : Nat) : List Instr := [.registerTemp k, .resolve k, .deleteAl
 /-- context with `n` registered plugins and no temp plugin -/
 def baseRegistry (n : Nat) : Registry := (List.range n).map fun i => (.plugin i, 1000 + i)
 
-def Sys.init (nPlugins : Nat) (cacheSet : Bool) (progs : List (List Instr)) : Sys :=
-  { shared := ⟨baseRegistry nPlugins, cacheSet, 0⟩, iters := [],
+/-- `inner`: key sets of the inner plugin-cache dicts that exist at the start (warm cache) -/
+def Sys.initWith (nPlugins : Nat) (cacheSet : Bool) (inner : List (List Key)) (progs : List (List Instr)) : Sys :=
+  { shared := ⟨baseRegistry nPlugins, cacheSet, 0, inner⟩, iters := [],
     threads := progs.zipIdx.map fun (p, i) => Thread.mk' i p }
+
+def Sys.init (nPlugins : Nat) (cacheSet : Bool) (progs : List (List Instr)) : Sys :=
+  Sys.initWith nPlugins cacheSet [] progs
+
+/-- instructions that only read the shared state, and cannot fail, on a context without temp plugins
+whose plugin cache is set and whose inner cache dicts are `inner` (the clean-up loop is included: with
+no `_temp*` key registered it deletes nothing) -/
+def Instr.readOnly (inner : List (List Key)) : Instr → Bool
+  | .contextHash => true
+  | .cacheTest => true
+  | .cacheUse => true
+  | .tryLookupTemp _ => true
+  | .deleteAllTemp => true
+  | .innerIter d => decide (d < inner.length)
+  | .innerGet d key => match inner[d]? with
+    | some l => decide (key ∈ l)
+    | none => false
+  | _ => false
 
 def Sys.failures (sys : Sys) : List (Nat × Err) :=
   sys.threads.filterMap fun t => t.failed.map fun e => (t.tid, e)
